@@ -23,7 +23,7 @@ Sym == [
   lt |-> <<45>>, ne |-> <<46>>,
   dup |-> <<18>>, drop |-> <<19>>, over |-> <<20>>, pick2 |-> <<21, 2>>, swap |-> <<22>>, rot |-> <<23>>,
   lit0 |-> <<48>>, lit1 |-> <<49>>, lit2 |-> <<50>>, lit7 |-> <<55>>, lit8 |-> <<56>>,
-  c80 |-> <<8, 128>>, cff |-> <<8, 255>>, c7f |-> <<8, 127>>, c181 |-> <<10, 129, 1>>, c102 |-> <<10, 2, 1>>, cm2 |-> <<17, 126>>,
+  c80 |-> <<8, 128>>, cff |-> <<8, 255>>, c7f |-> <<8, 127>>, c181 |-> <<10, 129, 1>>, c102 |-> <<10, 2, 1>>, c100 |-> <<10, 0, 1>>, cm2 |-> <<17, 126>>,
   nop |-> <<150>>, bra1 |-> <<40, 1, 0>>, skip1 |-> <<47, 1, 0>>, skipb |-> <<47, 253, 255>>,
   brab |-> <<40, 251, 255>>, skipbad |-> <<47, 100, 0>>, skipend |-> <<47, 0, 0>>,
   reg0 |-> <<80>>, regx |-> <<144, 200, 1>>, stackv |-> <<159>>, piece1 |-> <<147, 1>>, bitpiece |-> <<157, 8, 3>>,
